@@ -34,6 +34,7 @@ impl Anomaly {
             Anomaly::Wire(WireAnomaly::MultiByteCmd(_)) => "wire-multibyte-cmd",
             Anomaly::Wire(WireAnomaly::SpiOtherOp(_)) => "wire-spi-other-op",
             Anomaly::Wire(WireAnomaly::CmdHighBits(_)) => "wire-cmd-high-bits",
+            Anomaly::Wire(WireAnomaly::SizeHint { .. }) => "pixel-iterator-size-hint-contradicted",
             Anomaly::BadParamCount { .. } => "bad-param-count",
             Anomaly::Undecodable { .. } => "undecodable-pixel-format",
             Anomaly::PartialPixel { .. } => "partial-pixel",
